@@ -19,7 +19,7 @@ GA == Pose(5, <<1, 0, -2>>)
 GB == Pose(14, <<0, 3, 1>>)
 GRot == Pose(20, <<0, 0, 0>>)
 AllOps ==
-  { [name |-> "ReadPos"], [name |-> "ReadQuat"], [name |-> "ReadSe3"], [name |-> "DeepCopy"],
+  { [name |-> "ReadPos"], [name |-> "ReadQuat"], [name |-> "ReadSe3"], [name |-> "ReadDerived"], [name |-> "DeepCopy"],
     [name |-> "TransformL", g |-> GA, s |-> 1], [name |-> "TransformL", g |-> GB, s |-> 2],
     [name |-> "TransformR", g |-> GB], [name |-> "TransformR", g |-> GRot],
     [name |-> "TransformProp", g |-> GA],
@@ -31,7 +31,7 @@ AllOps ==
     [name |-> "Align", mode |-> "rigid"], [name |-> "Align", mode |-> "sim"],
     [name |-> "Align", mode |-> "scale"], [name |-> "Align", mode |-> "origin"],
     [name |-> "Project", plane |-> "xy"], [name |-> "Project", plane |-> "yz"] }
-CoreOps == {o \in AllOps : o.name \in {"ReadPos", "ReadQuat", "ReadSe3", "TransformL", "TransformR", "Scale", "Reduce",
+CoreOps == {o \in AllOps : o.name \in {"ReadPos", "ReadQuat", "ReadSe3", "ReadDerived", "TransformL", "TransformR", "Scale", "Reduce",
                                        "Project", "Align", "DeepCopy", "TransformProp"}
                            /\ (o.name = "Align" => o.mode \in {"sim", "origin"})
                            /\ (o.name = "Project" => o.plane = "xy")
@@ -77,7 +77,7 @@ Do(op) ==
        \* exceptions: align reads positions before failing (fills cpos); the others touch nothing
        IF op.name = "Align" THEN cpos' = PosC /\ UNCHANGED <<cse3, cquat>> ELSE UNCHANGED <<cse3, cpos, cquat>>
      ELSE
-     CASE op.name = "ReadPos" -> cpos' = PosC /\ UNCHANGED <<cse3, cquat>>
+     CASE op.name \in {"ReadPos", "ReadDerived"} -> cpos' = PosC /\ UNCHANGED <<cse3, cquat>>      \* distances / path_length use positions_xyz
        [] op.name = "ReadQuat" -> cquat' = QuatC /\ UNCHANGED <<cse3, cpos>>
        [] op.name = "ReadSe3" -> cse3' = Mat /\ UNCHANGED <<cpos, cquat>>
        [] op.name = "DeepCopy" -> UNCHANGED <<cse3, cpos, cquat>>
